@@ -213,6 +213,11 @@ def check(ctx):
         dq = dq + [(0, None)] * extra
         r0 = dg.local(0)
         ok1 = len(dq) == 1 and dq[0][1] is not None and not util.in_loop(body, dq[0][0])
+        if ok1:
+            # ... on EVERY path: a `None` answered without asking the container (stream already told to end, "nothing to do" shortcut) is read as "empty" by
+            # the poll protocol and by the drain-on-drop loop, which then leave accepted events behind
+            ctx.ob("R01.4", f"{k}|asks-the-container-on-every-path", util.on_every_return_path(body, dq[0][0]), body.loc(dq[0][0]),
+                   "every answer of consume is produced after asking the container")
         ctx.ob("R01.4", f"{k}|dequeues-once", ok1, f"{body.f['file']}:{body.f['line']}", f"{len(dq)} dequeue call(s) per consume; required exactly one (each poll takes at most one event out of the container)")
         def from_dq(e):
             return _mentions(e, lambda x: x[0] == "call" and x[1].split("::")[-1] in ("consume_movable", "consume_leaking", "try_recv"))
